@@ -30,6 +30,7 @@
 #include <iostream>
 #include <vector>
 #include <algorithm>
+#include <functional>
 
 #include "constant.hh"
 #include "flag_saver.hh"
@@ -184,27 +185,30 @@ constant::operator< (constant that) const
   auto compare_magnitudes = [&] ()
     { return value () < that.value (); };
 
-  if (dom1 == dom2)
-    // Both domains are the same.  Possibly both are nullptr.
+  if (dom1 == nullptr && dom2 == nullptr)
     return compare_magnitudes ();
   if (dom1 == nullptr && dom2 != nullptr)
     return true;
   if (dom1 != nullptr && dom2 == nullptr)
     return false;
 
-  if (// If both domains are arithmetic, we can directly compare the
-      // values.
-      (dom1->safe_arith () && dom2->safe_arith ())
+  // Constants of arithmetic domains all form one class and compare by
+  // value.  Any other constant is classed by the most enclosing domain
+  // that covers it (that lets e.g. STT_FUNC of two ELF machines compare
+  // equal).  Order by class first, by value second.  That way constants
+  // of unrelated domains are never equal and the relation is transitive,
+  // which it would not be if the two criteria were mixed.
+  auto klass = [] (constant_dom const *dom, mpz_class const &v)
+    {
+      return dom->safe_arith () ? &dec_constant_dom : dom->most_enclosing (v);
+    };
 
-      // Maybe we can find a common sub-domain that covers them both.
-      // That has no effect for arithmetic domains, so we don't need
-      // to care if both are arithmetic or only one of them is.
-      || (dom1->most_enclosing (value ())
-	  == dom2->most_enclosing (that.value ())))
+  auto const *class1 = klass (dom1, value ());
+  auto const *class2 = klass (dom2, that.value ());
+  if (class1 == class2)
     return compare_magnitudes ();
 
-  // Otherwise order the two constants by their domains.
-  return dom1 < dom2;
+  return std::less <constant_dom const *> () (class1, class2);
 }
 
 bool
